@@ -40,6 +40,11 @@ def _cases(draw):
     ny = gen.shape_size(Y)
     kind = draw(st.sampled_from(KINDS))
     cols = [draw(_columns(n, kind)) for _ in range(ny)]
+    # the overall scale of a metric is arbitrary (rates of 1e-6, counts of 1e6): nothing in the
+    # formulas may depend on it
+    scale = draw(st.sampled_from([1.0, 1.0, 1.0, 1e-4, 1e-8, 1e5]))
+    if scale != 1.0:
+        cols = [[v * scale for v in c] for c in cols]
     nan_mask = [[False] * n for _ in range(ny)]
     if n > 1 and draw(st.booleans()):
         for j in range(ny):
@@ -54,11 +59,11 @@ def _cases(draw):
         if k == "on":
             e = fin[draw(st.integers(0, len(fin) - 1))]
         elif k == "below":
-            e = min(fin) - draw(st.sampled_from([0.5, 1e-9, 100.0]))
+            e = min(fin) - draw(st.sampled_from([0.5, 1e-9, 100.0])) * scale
         elif k == "above":
-            e = max(fin) + draw(st.sampled_from([0.5, 1e-9, 100.0]))
+            e = max(fin) + draw(st.sampled_from([0.5, 1e-9, 100.0])) * scale
         elif k == "median":
-            e = sorted(fin)[len(fin) // 2] + draw(st.sampled_from([0.0, 0.1]))
+            e = sorted(fin)[len(fin) // 2] + draw(st.sampled_from([0.0, 0.1])) * scale
         else:
             e = min(fin) + draw(st.floats(min_value=0, max_value=1)) * (max(fin) - min(fin))
         est.append(float(e))
@@ -70,7 +75,7 @@ def _cases(draw):
                                     st.floats(min_value=1e-3, max_value=0.999)),
                           min_size=na, max_size=na))
     alpha2 = draw(st.floats(min_value=1e-3, max_value=0.999))
-    return dict(n=n, Y=list(Y), kind=kind, cols=cols, nan=nan_mask, est=est, method=method,
+    return dict(n=n, Y=list(Y), kind=kind, scale=scale, cols=cols, nan=nan_mask, est=est, method=method,
                 A=list(A), alpha=alpha, alpha2=alpha2,
                 perm_seed=draw(st.integers(0, 10**6)), extra_nans=draw(st.integers(1, 3)),
                 theta_dtype=draw(st.sampled_from(["float64", "float64", "float32", "int", "F"])),
@@ -123,9 +128,9 @@ def check(case):
     theta = _theta(case)
     td = case.get("theta_dtype", "float64")
     has_nan = any(any(r) for r in case["nan"])
-    if td == "float32" and case["kind"] in ("discrete", "constant", "dyadic"):
+    if td == "float32" and case["kind"] in ("discrete", "constant", "dyadic") and case.get("scale", 1.0) == 1.0:
         theta = theta.astype(np.float32)  # exactly representable values
-    elif td == "int" and case["kind"] == "discrete" and not has_nan:
+    elif td == "int" and case["kind"] == "discrete" and not has_nan and case.get("scale", 1.0) == 1.0:
         theta = theta.astype(np.int64)
     elif td == "F" and theta.ndim >= 2:
         theta = np.asfortranarray(theta)
@@ -145,7 +150,7 @@ def check(case):
     for j in range(ny):
         col = [math.nan if mk else x for x, mk in zip(case["cols"][j], case["nan"][j])]
         fin = [x for x in col if not math.isnan(x)]
-        scale = max(1.0, max(abs(x) for x in fin))
+        scale = max(abs(x) for x in fin) or 1.0  # relative to the data, never an absolute floor
         e = case["est"][j]
         p0 = sum(1 for x in fin if x <= e) / len(fin)
         if len(fin) >= 3 and len(set(fin)) > 1 and 0 < p0 < 1:
@@ -170,7 +175,7 @@ def check(case):
         return np.asarray(bootstrap_ci(th, es, al, method=method))
 
     exact = False
-    scale_all = max(1.0, float(np.nanmax(np.abs(theta))))
+    scale_all = float(np.nanmax(np.abs(theta))) or 1.0
     tol = 1e-9 * scale_all
     if away:
         # NaN replicates appended / replicates permuted
@@ -215,7 +220,7 @@ def check(case):
                 require(np.allclose(gj.reshape(-1), gotf[j].reshape(-1), rtol=0, atol=1e-12 * scale_all),
                         "bci:components-interact",
                         lambda: f"method={method} component {j}: joint {gotf[j].tolist()} alone {gj.tolist()}")
-    labels = [f"method:{method}", f"kind:{case['kind']}", f"Yrank:{len(Y)}"]
+    labels = [f"method:{method}", f"kind:{case['kind']}", f"Yrank:{len(Y)}", f"scale:{case.get('scale', 1.0)}"]
     if not away:
         labels.append("near-bca-pole")
     if any(any(r) for r in case["nan"]):
